@@ -112,6 +112,12 @@ def wl_bloom(ctx, rng, case):
             "hex_string": lambda: cls(hex_string=hx, **bl.kw_hash(hf)),
         }
         probe = keys + ["never-added-1", b"never-added-2"]
+        buf = bytearray(data)
+        tb = cls.frombytes(buf, **bl.kw_hash(hf))
+        for i in range(len(buf)):
+            buf[i] ^= 0xFF  # the caller re-uses its buffer
+        ctx.check(bytes(tb) == data, f"{what}: a filter loaded from a bytearray changed when the caller overwrote that buffer (shared storage)")
+        ctx.count("aliasing_checks")
         for lname, ld in loaders.items():
             t = ld()
             ctx.check(type(t) is cls, f"{what}: loader {lname} returned a {type(t).__name__}")
